@@ -52,6 +52,7 @@
 #define _VAR_CLOSE  '}'
 #define _VAR_CMD    '!'
 #define _VAR_ENV    '%'
+#define _MAX_SUBSTITUTIONS  (1000)  /* per value, stops reference loops */
 
 /* internal functions */
 static char *_parsestr(qlisttbl_t *tbl, const char *str);
@@ -330,6 +331,7 @@ static char *_parsestr(qlisttbl_t *tbl, const char *str) {
     }
 
     bool loop;
+    int numsubst = 0;
     char *value = strdup(str);
     do {
         loop = false;
@@ -405,20 +407,30 @@ static char *_parsestr(qlisttbl_t *tbl, const char *str) {
                 }
             }
 
-            // replace
-            strncpy(varstr, s, varlen + 3);  // ${str}
-            varstr[varlen + 3] = '\0';
-
-            s = qstrreplace("sn", value, varstr, newstr);
+            // replace this reference only, so that a value which refers to
+            // itself grows by a bounded amount per round.
+            size_t headlen = s - value;
+            size_t newlen = strlen(newstr);
+            size_t taillen = strlen(e + 1);
+            char *newvalue = (char *) malloc(headlen + newlen + taillen + 1);
+            if (newvalue == NULL) {
+                free(newstr);
+                free(varstr);
+                break;
+            }
+            memcpy(newvalue, value, headlen);
+            memcpy(newvalue + headlen, newstr, newlen);
+            memcpy(newvalue + headlen + newlen, e + 1, taillen + 1);
             free(newstr);
             free(varstr);
             free(value);
-            value = s;
+            value = newvalue;
 
             loop = true;
             break;
         }
-    } while (loop == true);
+        // self- or mutually-referential variables would loop forever.
+    } while (loop == true && ++numsubst < _MAX_SUBSTITUTIONS);
 
     return value;
 }
